@@ -22,7 +22,8 @@ DECIDED = ("MIR makes unwinding explicit, so each clause is a path property: R5.
            "target: the guard's destructor would repeat the refused protection change and panic during unwinding); R5.9 every returning path "
            "of the restore guard's destructor performs the restoring write - there is no edge (std::thread::panicking() in particular) on "
            "which it returns without restoring; R5.10 the trampoline allocator returns only a mapping it accepted, releases what it "
-           "rejects and otherwise diverges (an exhausted search is one clean panic, not a dangling pointer or an endless retry)")
+           "rejects and otherwise diverges (an exhausted search is one clean panic, not a dangling pointer or an endless retry); R5.11 no code write can fault: every entry write and the destructor's restoring write is preceded on its own path "
+           "by a protection change covering it (a refused or skipped protection change followed by the write is a SIGSEGV, not a panic)")
 NOT_DECIDED = ("aborts caused by allocation failure inside std; panics inside a user fake with a non-unwinding ABI (excluded by the property)")
 
 ABORTING = ("std::process::abort", "std::process::exit", "std::panic::catch_unwind", "std::intrinsics::abort", "core::intrinsics::abort",
@@ -163,6 +164,10 @@ def run(ck, models, tier):
         if tm.arch != "arm":
             from .c11 import allocator_obligations
             allocator_obligations(ck, tm, lambda r: "R5.10")
+        # ---------------- R5.11 "never a process abort": no code write can fault - each entry write and the destructor's restoring write is
+        # preceded on its own path by a protection change that covers it (C01 R1.3 on install and restore paths)
+        k11 = write_protection_obligations(ck, tm, g_, "R5.11")
+        ck.floor("R5.11", "code-writes-checked-for-protection", k11, 7, tm.target)
         # ---------------- R5.7 no call-count state survives a lifetime that ended by unwinding: counters restart at every installation
         from .c07 import install_resets_counter
         install_resets_counter(ck, tm, "R5.7")
